@@ -11,6 +11,7 @@ RULE = ('case = (hash type, ordered node list, membership history of add/remove 
         'in /verif/vlib/refs/ring.py, (iii) at the end with a freshly built router over the live destinations in '
         'configuration order; non-trivial = history with >=1 operation on >=2 nodes; distinct = distinct cases')
 RULE_MORE = (' Also: replicas colliding on the last ring positions, router-level history independence under REPLICATION_FACTOR 1-3 / DIVERSE_REPLICAS, and a manager mode (DYNAMIC_ROUTER sequences: every datapoint is handed to exactly the destinations the live router names).')
+RULE_MORE = RULE_MORE + ' Round 12: names with empty path elements, tags and odd characters at router level.'
 RULE = RULE + RULE_MORE
 EXHAUSTIVE = {'quick': True, 'thorough': True}
 EXHAUSTIVE_OVER = ('ring positions 0..65535 per sweep; all toggle histories of length <=3 over 3-node lists '
